@@ -201,11 +201,11 @@ def step (s : St) (e : Ev) : Option (St × Obs) :=
   | .alloc kind =>
     match nextId s.N s.last s.inUse with
     | .ok id =>
-      let (chans', ch) := match kind with
-        | .search => (s.chans ++ [{ opIdx := s.ops.length }], some s.chans.length)
+      let (chans', ch) : List Chan × Option Nat := match kind with
+        | .search => (s.chans ++ [({ opIdx := s.ops.length } : Chan)], some s.chans.length)
         | _ => (s.chans, none)
       some ({ s with last := id, inUse := id :: s.inUse, chans := chans',
-                     ops := s.ops ++ [{ id := id, kind := kind, chan := ch }] }, .id id)
+                     ops := s.ops ++ [({ id := id, kind := kind, chan := ch } : Op)] }, .id id)
     | .panic => some (s, .allocPanic)
     | .diverge => none
   | .enqueue i tmo =>
